@@ -69,7 +69,7 @@ class RMCMessage:
 		stream = streams.StreamOut(self.settings)
 		
 		flag = 0x80 if self.mode == self.REQUEST else 0
-		if self.protocol < 0x80:
+		if self.protocol < 0x7F:
 			stream.u8(self.protocol | flag)
 		else:
 			stream.u8(0x7F | flag)
